@@ -67,10 +67,15 @@ def _gen_doc(rng, tag):
 def _gen_member(rng, name, kind, side, level, cfg, like=None):
     tag = f"{side} {name}"
     if kind == "func":
-        deco = rng.choice([None, None, None, "staticmethod", "classmethod", "property"]) if level > 0 and side == "rt" else (rng.choice([None, None, "staticmethod", "classmethod"]) if level > 0 else None)
+        deco = rng.choice([None, None, None, "staticmethod", "classmethod", "property"]) if level > 0 else None
         if deco == "property":
-            # a property is an attribute for Griffe: stubs declaring `name: T` are of the same kind
-            return {"k": "func", "name": name, "params": [["self", None, False]], "ret": rng.choice(pysrc.ANNS) if rng.random() < 0.6 else None, "doc": _gen_doc(rng, tag), "deco": "property"}
+            # a property is an attribute for Griffe (stubs declaring `name: T` are of the same kind); either side may
+            # also declare a setter and/or deleter for it
+            m = {"k": "func", "name": name, "params": [["self", None, False]], "ret": rng.choice(pysrc.ANNS) if rng.random() < 0.6 else None, "doc": _gen_doc(rng, tag), "deco": "property"}
+            acc = rng.choice([[], [], ["setter"], ["setter", "deleter"], ["deleter"]])
+            if acc:
+                m["accessors"] = acc
+            return m
         m = {"k": "func", "name": name, "params": _gen_params(rng, level > 0 and deco != "staticmethod", like["params"] if like and like["k"] == "func" else None), "ret": rng.choice(pysrc.ANNS) if rng.random() < 0.6 else None, "doc": _gen_doc(rng, tag)}
         if deco:
             m["deco"] = deco
@@ -143,6 +148,7 @@ def generate(rng, opts):
         "p_overloads": rng.choice([0.0, 0.2, 0.5]),
         "p_overload_impl": rng.choice([0.0, 0.0, 0.3]),
         "import_sources": rng.choice([["pkg._impl"], ["pkg._impl", "pkg._missing"], ["pkg._impl", "pkg._missing", "ext"], ["ext"]]),
+        "p_star": rng.choice([0.0, 0.0, 0.4]),
     }
     if opts.get("no_known"):
         cfg["p_overload_impl"] = 0.0
@@ -166,11 +172,14 @@ def generate(rng, opts):
             has_rt, has_st = (False, True) if rng.random() < 0.6 else (True, False)
         if mp in ("pkg", "mod") and rng.random() < 0.8:
             has_st = True
+        if has_rt and placement != "single" and mp != "pkg._impl" and rng.random() < cfg["p_star"]:
+            # `from pkg._impl import *` as the first statement: re-exports f, g, C, x unless defined locally
+            rt.insert(0, {"k": "star", "name": "*", "from": "pkg._impl"})
         modules[mp] = {
             "rt": {"doc": _gen_doc(rng, "rt " + mp), "members": rt} if has_rt else None,
             "st": {"doc": _gen_doc(rng, "st " + mp), "members": st} if has_st else None,
         }
-    if placement != "single" and any("pkg._impl" == m.get("from") for mod in modules.values() for side in ("rt", "st") if mod[side] for m in _all_members(mod[side]["members"])):
+    if placement != "single" and any("pkg._impl" == m.get("from") for mod in modules.values() for side in ("rt", "st") if mod[side] for m in _all_members(mod[side]["members"])):  # incl. star imports
         modules["pkg._impl"] = {"rt": {"doc": None, "members": copy.deepcopy(IMPL_MEMBERS)}, "st": None}
     bases = [{"mode": "sorted"}, {"mode": "reversed"}] + [{"mode": "hash", "key": rng.randrange(1 << 30)} for _ in range(2)]
     chosen = rng.sample(bases, rng.choice([1, 1, 2]))
@@ -296,6 +305,10 @@ def exp_container(rt, st, nested_stub_only=False):
     out = {}
     rt = [_as_model(m) for m in rt]
     st = [_as_model(m) for m in st]
+    if any(m["k"] == "star" for m in rt):
+        local = {m["name"] for m in rt if m["k"] != "star"}
+        star = next(m for m in rt if m["k"] == "star")
+        rt = [m for m in rt if m["k"] != "star"] + [{"k": "import", "name": n, "from": star["from"], "orig": n} for n in _STAR_NAMES if n not in local]
     rt_by = {m["name"]: m for m in rt}
     for m in rt:
         out[m["name"]] = exp_alone(m, "rt")
@@ -328,8 +341,13 @@ def exp_container(rt, st, nested_stub_only=False):
     return out
 
 
+_STAR_NAMES: list = []
+
+
 def exp_world(world):
     mods = world["modules"]
+    impl = mods.get("pkg._impl")
+    _STAR_NAMES[:] = [m["name"] for m in impl["rt"]["members"] if not m["name"].startswith("_")] if impl and impl["rt"] else []
 
     def build(mp):
         sides = mods[mp]
@@ -537,6 +555,13 @@ def _trigger_tags(world):
                     rec(r["members"], s["members"])
 
         rec(sides["rt"]["members"], sides["st"]["members"])
+        # stubs of a sub-module are merged while the package is being loaded, i.e. before wildcard imports are expanded
+        if world["placement"] != "stubs_pkg" and mp != world["top"] and any(m["k"] == "star" for m in sides["rt"]["members"]):
+            local = {m["name"] for m in sides["rt"]["members"]}
+            impl = world["modules"].get("pkg._impl")
+            star_names = {m["name"] for m in impl["rt"]["members"]} if impl and impl["rt"] else set()
+            if any(s["name"] in star_names and s["name"] not in local for s in sides["st"]["members"]):
+                tags.add("submodule-stubs-redeclare-wildcard-reexport")
     return sorted(tags)
 
 
@@ -699,7 +724,7 @@ def shrink_candidates(plan):
                 yield {**plan, "schedules": scheds}
     mods = world["modules"]
     for mp in list(mods):
-        if mp in (world["top"],):
+        if mp in (world["top"], "pkg._impl"):
             continue
         if any(o.startswith(mp + ".") for o in mods):
             continue
